@@ -330,6 +330,10 @@ def metamodel_for_language(
         language = language_description(language_name)
         if isinstance(language.metamodel, (TextXMetaModel, TextXMetaMetaModel)):
             metamodels[language_name] = language.metamodel
+        elif language.metamodel is None:
+            raise TextXRegistrationError(
+                f'Language "{language_name}" is registered without a meta-model.'
+            )
         else:
             metamodel = language.metamodel(**kwargs)
             if not (isinstance(metamodel, (TextXMetaModel, TextXMetaMetaModel))):
